@@ -726,6 +726,15 @@ class Lowerer:
                 return f.ret_hint
             raise
 
+    def is_static_method(self, n):
+        seen = 0
+        while n is not None and seen < 8:
+            if n.get('storageClass') == 'static':
+                return True
+            n = self.idx.by_id.get(n.get('previousDecl'))
+            seen += 1
+        return False
+
     def lower_fn(self, f):
         n = f.node
         self.cur = f
@@ -735,7 +744,7 @@ class Lowerer:
         if f.kind == 'lambda':
             rec_t = f.closure_ty
             params.append('struct %s* self' % rec_t)
-        elif kind in ('CXXMethodDecl', 'CXXConstructorDecl', 'CXXConversionDecl') and n.get('storageClass') != 'static':
+        elif kind in ('CXXMethodDecl', 'CXXConstructorDecl', 'CXXConversionDecl') and not self.is_static_method(n):
             rec = self.idx.record_of_method(n)
             if rec is None:
                 raise Unsupported('method without record: %s' % self.idx.qname.get(n['id']))
@@ -1483,7 +1492,12 @@ class Lowerer:
             inits = [x for x in d.get('inner', []) if isinstance(x, dict) and x.get('kind') and not x['kind'].endswith('Attr')]
             is_const = 'const' in d['type']['qualType'] or d.get('constexpr')
             if not is_const:
-                raise Unsupported('mutable global %s' % name)
+                if not self.spec.get('mutable_globals'):
+                    raise Unsupported('mutable global %s' % name)
+                self.note('mutable global %s lowered as a plain global: its value on entry is whatever the harness leaves (arbitrary)' % name)
+                self.globals[did] = '%s;' % self.cdecl(t, name)
+                self.global_order.append(did)
+                return name
             self.globals[did] = None
             if not inits:
                 raise Unsupported('global %s without initialiser in this TU' % name)
@@ -1763,6 +1777,8 @@ class Lowerer:
         for key in (q, name):
             if key and key in self.stubs:
                 return self.stub_call(e, key, d, r, obj, args)
+        if d is not None and name in self.spec.get('record_calls', []):
+            return self.recording_stub(e, d, q, obj, args)
         if d is None:
             return self.builtin_call(e, r, obj, args)
         if q and q.startswith('linalg::') and obj is None and d.get('kind') == 'FunctionDecl':
